@@ -687,7 +687,21 @@ def run_case(prop, case):
         c2 = copy.deepcopy(case)
         ref0 = _run_once(ctg, c2, False, False, log, C(), C(), False)
         r0 = ref0["results"][min(si, len(ref0["results"]) - 1)]
-        if r0["raised"] is not None and type(r0["raised"]) is type(e):
+        by_design = r0["raised"] is not None and type(r0["raised"]) is type(e)
+        if not by_design and type(e).__name__ != "BadTrial":
+            # (an injected BadTrial coming out of search() is never by design: BadTrial must merely discard the trial)
+            # the pool may have executed a trial the serial run never reaches: does the SAME simulated run (pool, faults,
+            # schedule) go through when trial errors are skipped?  Then the exception came out of a trial (its own
+            # failure, surfaced as on_trial_error='raise' documents) and not out of the search machinery.
+            c3 = copy.deepcopy(case)
+            c3["on_trial_error"] = "ignore"
+            try:
+                r3 = _run_once(ctg, c3, True, True, log, C(), C(), True)["results"]
+                r3 = r3[min(si, len(r3) - 1)]["raised"]
+                by_design = r3 is None or (isinstance(r3, KeyError) and r3.args == ("tree",))
+            except Exception:
+                by_design = False
+        if by_design:
             counters["probe:own_trial_error_reraised_by_design"] += 1
         else:
             V("search-raised", f"search #{si} raised {type(e).__name__}: {e} under on_trial_error='raise' although the fault-free serial "
